@@ -222,17 +222,15 @@ func (e *Engine) applyContract(fr *Frame, st *State, fn *ssa.Function, c *Contra
 	for _, m := range c.Modifies {
 		e.havocModifies(fr, st, env, m, cname)
 	}
-	// result
+	// a callee may allocate: watermark is non-decreasing
+	nwm := e.vc.declare("wm", "Int")
+	e.vc.assume("true", fmt.Sprintf("(>= %s %s)", nwm, st.wm))
+	st.wm = nwm
+	// result (may refer to objects the callee allocated)
 	var rv SV
 	if resT != nil {
 		rv = e.freshSV(resT, "r_"+fn.Name(), st.pc, st)
 	}
-	// a callee may allocate: watermark is non-decreasing
-	nwm := e.vc.declare("wm", "Int")
-	e.vc.assume("true", fmt.Sprintf("(>= %s %s)", nwm, st.wm))
-	oldwm := st.wm
-	st.wm = nwm
-	_ = oldwm
 	penv := e.bindResults(env, c, fn.Signature, rv)
 	penv.cur = st
 	penv.old = pre
@@ -244,9 +242,8 @@ func (e *Engine) applyContract(fr *Frame, st *State, fn *ssa.Function, c *Contra
 		}
 		e.vc.assume(st.pc, implies(preAll, t))
 	}
-	if c.MayPanic {
-		// the callee may not return; nothing further to assume
-	}
+	// vacuity guard: the assumed postcondition must not contradict the path
+	e.vc.cover(cname+":cover", st.pc)
 	return rv
 }
 
@@ -582,13 +579,13 @@ func (e *Engine) applyIfaceContract(fr *Frame, st *State, c *Contract, m *types.
 	for _, mm := range c.Modifies {
 		e.havocModifies(fr, st, env, mm, cname)
 	}
+	nwm := e.vc.declare("wm", "Int")
+	e.vc.assume("true", fmt.Sprintf("(>= %s %s)", nwm, st.wm))
+	st.wm = nwm
 	var rv SV
 	if resT != nil {
 		rv = e.freshSV(resT, "r_"+c.Name, st.pc, st)
 	}
-	nwm := e.vc.declare("wm", "Int")
-	e.vc.assume("true", fmt.Sprintf("(>= %s %s)", nwm, st.wm))
-	st.wm = nwm
 	penv := e.bindResults(env, c, sig, rv)
 	penv.cur = st
 	penv.old = pre
